@@ -166,15 +166,25 @@ func ruleC16Reserve(cx *Ctx) {
 			continue
 		}
 		m, isAnd := masked.(*ssa.BinOp)
-		if !isAnd || m.Op != token.AND || !(m.X == p || m.Y == p) {
+		if !isAnd {
 			continue
 		}
 		one := false
-		if c, isC := constInt(m.Y); isC && c == 1 {
-			one = true
-		}
-		if c, isC := constInt(m.X); isC && c == 1 {
-			one = true
+		switch {
+		case m.Op == token.AND && (m.X == p || m.Y == p):
+			if c, isC := constInt(m.Y); isC && c == 1 {
+				one = true
+			}
+			if c, isC := constInt(m.X); isC && c == 1 {
+				one = true
+			}
+		case m.Op == token.REM && m.X == p:
+			// p % 2 on the unsigned index is its low bit
+			if c, isC := constInt(m.Y); isC && c == 2 {
+				if bt, isB := p.Type().Underlying().(*types.Basic); isB && bt.Info()&types.IsUnsigned != 0 {
+					one = true
+				}
+			}
 		}
 		if !one {
 			continue
@@ -491,6 +501,17 @@ func ruleC16Pop(cx *Ctx) {
 			idxLoad = c
 		}
 	})
+	// (1), (2) are decided in two tiers: on the shape of TryPop itself, and - when the code was reshaped (helpers inlined
+	// or split off, the consumer's position wrapped into a small type) - on its path summaries below
+	t1 := map[string]bool{}
+	t1at := map[string]string{}
+	tier1 := func(key string, ok bool, where string) {
+		if prev, seen := t1[key]; seen {
+			ok = ok && prev
+		}
+		t1[key] = ok
+		t1at[key] = where
+	}
 	// (1) return nil guards
 	allInstrs(fn, func(in ssa.Instruction) {
 		ret, ok := in.(*ssa.Return)
@@ -512,7 +533,7 @@ func ruleC16Pop(cx *Ctx) {
 				}
 			}
 		}
-		cx.R.Check(empty && equal, rule, name, "return nil", cx.P.where(ret), "nil is returned only when the slot is empty and consumerIndex equals producerIndex (queue empty)")
+		tier1("return nil", empty && equal, cx.P.where(ret))
 	})
 	// (2) clear before advance; advance by 2; non-nil value only
 	var clear, adv ssa.Instruction
@@ -528,7 +549,7 @@ func ruleC16Pop(cx *Ctx) {
 			}
 		}
 	})
-	cx.R.Check(clear != nil && adv != nil && instrDominates(clear, adv), rule, name, "clear ≺ advance", cx.P.Pos(fn.Pos()), "the consumed slot is cleared before consumerIndex advances by 2")
+	tier1("clear ≺ advance", clear != nil && adv != nil && instrDominates(clear, adv), cx.P.Pos(fn.Pos()))
 	if adv != nil {
 		// with every "loaded slot value != nil" edge cut, the advance must be unreachable (a reserved-but-unpublished slot is awaited, never skipped)
 		cut := map[edge]bool{}
@@ -558,7 +579,7 @@ func ruleC16Pop(cx *Ctx) {
 			}
 		}
 		reach := reachableBlocks(fn, cut)
-		cx.R.Check(!reach[adv.Block()] && len(cut) >= 2, rule, name, "await published", cx.P.where(adv), "consumerIndex advances only on a path where the slot was observed non-nil")
+		tier1("await published", !reach[adv.Block()] && len(cut) >= 2, cx.P.where(adv))
 	}
 	if clear != nil {
 		notJump := false
@@ -567,7 +588,7 @@ func ruleC16Pop(cx *Ctx) {
 				notJump = true
 			}
 		}
-		cx.R.Check(notJump, rule, name, "marker not consumed", cx.P.where(clear), "the jump marker is never handed out as an element")
+		tier1("marker not consumed", notJump, cx.P.where(clear))
 	}
 	// (3)-(5) the jump path, on the path summaries of TryPop with its helpers inlined (they may be one function or several):
 	// a slot holding the marker leads to the buffer linked at nextArrayOffset(mask) of the exhausted buffer; the link is
@@ -575,7 +596,7 @@ func ruleC16Pop(cx *Ctx) {
 	// consumerIndex advances by 2, and returned
 	ps := newPathSum(cx)
 	ps.inlinePkgs = map[string]bool{pkgPath(queuePkg): true}
-	ps.alsoRelevant = []string{"." + fname(jump) + ")"}
+	ps.alsoRelevant = []string{"." + fname(jump) + ")", "Eq(atomic:Load#"}
 	ps.trackLoads = true
 	outs := ps.Run(fn, nil)
 	cx.R.AddInt("paths_enumerated", len(outs))
@@ -586,6 +607,115 @@ func ruleC16Pop(cx *Ctx) {
 	a := newAgg(cx, rule, name, cx.P.Pos(fn.Pos()))
 	recv := "param:" + pname(bparam(fn, 0))
 	jumpT := "load(" + recv + "." + fname(jump) + ")"
+	// ---- tier 2 of (1), (2): every returning path
+	t2 := map[string]bool{"return nil": true, "clear ≺ advance": true, "await published": true, "marker not consumed": true}
+	nNil, nElem := 0, 0
+	for _, o := range outs {
+		if o.Cut || o.Panic || len(o.Rets) != 1 {
+			continue
+		}
+		var cIdx, pIdx string
+		type lp struct {
+			res, addr string
+			at        int
+		}
+		var lps []lp
+		clears := map[string]int{}
+		advAt, advN := -1, 0
+		for i, e := range o.S.trace {
+			switch {
+			case e.Kind == "AtomicLoad" && len(e.Args) > 0 && e.Args[0] == "&"+recv+"."+fname(ci) && cIdx == "":
+				cIdx = e.Res
+			case e.Kind == "AtomicLoad" && len(e.Args) > 0 && e.Args[0] == "&"+recv+"."+fname(pi):
+				pIdx = e.Res
+			case e.Kind == "Atomic" && e.Args[0] == "LoadPointer":
+				lps = append(lps, lp{e.Res, e.Args[1], i})
+			case e.Kind == "Atomic" && e.Args[0] == "StorePointer" && len(e.Args) == 3 && e.Args[2] == "nil":
+				clears[e.Args[1]] = i
+			case e.Kind == "Atomic" && e.Args[0] == "Store" && e.Args[1] == "&"+recv+"."+fname(ci):
+				advN++
+				if cIdx != "" && e.Args[2] == "("+cIdx+"+const(2))" {
+					advAt = i
+				}
+			}
+		}
+		if o.Rets[0] == "nil" {
+			nNil++
+			empty := len(lps) > 0
+			for _, l := range lps {
+				if isNil, k := o.S.preds["IsNil("+l.res+")"]; !k || !isNil {
+					empty = false
+				}
+			}
+			eq := false
+			if cIdx != "" && pIdx != "" {
+				if v, k := o.S.preds["Eq("+cIdx+","+pIdx+")"]; k && v {
+					eq = true
+				}
+				if v, k := o.S.preds["Eq("+pIdx+","+cIdx+")"]; k && v {
+					eq = true
+				}
+			}
+			if !(empty && eq && advN == 0 && len(clears) == 0) {
+				t2["return nil"] = false
+			}
+			continue
+		}
+		nElem++
+		var el *lp
+		for i := range lps {
+			if lps[i].res == o.Rets[0] {
+				el = &lps[i]
+			}
+		}
+		if el == nil {
+			t2["await published"] = false
+			continue
+		}
+		if isNil, k := o.S.preds["IsNil("+el.res+")"]; !k || isNil {
+			t2["await published"] = false
+		}
+		c, cleared := clears[el.addr]
+		if !(cleared && c > el.at && advAt > c && advN == 1) {
+			t2["clear ≺ advance"] = false
+		}
+		isJumpPath := false
+		for atom, v := range o.S.preds {
+			if v && (strings.HasPrefix(atom, "PtrEq(") || strings.HasPrefix(atom, "Eq(")) && strings.Contains(atom, jumpT) {
+				isJumpPath = true
+			}
+		}
+		if !isJumpPath {
+			known := false
+			for atom, v := range o.S.preds {
+				if !v && (strings.HasPrefix(atom, "PtrEq(") || strings.HasPrefix(atom, "Eq(")) && strings.Contains(atom, jumpT) && strings.Contains(atom, el.res) {
+					known = true
+				}
+			}
+			if !known {
+				t2["marker not consumed"] = false
+			}
+		}
+	}
+	if nNil == 0 {
+		t2["return nil"] = false
+	}
+	if nElem == 0 {
+		t2["clear ≺ advance"], t2["await published"], t2["marker not consumed"] = false, false, false
+	}
+	for _, k := range []struct{ key, text string }{
+		{"return nil", "nil is returned only when the slot is empty and consumerIndex equals producerIndex (queue empty)"},
+		{"clear ≺ advance", "the consumed slot is cleared before consumerIndex advances by 2"},
+		{"await published", "consumerIndex advances only on a path where the slot was observed non-nil"},
+		{"marker not consumed", "the jump marker is never handed out as an element"},
+	} {
+		v1, seen := t1[k.key]
+		where := t1at[k.key]
+		if where == "" {
+			where = cx.P.Pos(fn.Pos())
+		}
+		cx.R.Check((seen && v1) || t2[k.key], rule, name, k.key, where, k.text)
+	}
 	jumpPaths := 0
 	for _, o := range outs {
 		if o.Cut || o.Panic {
